@@ -214,6 +214,14 @@ class ScrubRec:
         self.kinds.add("partial-sync")
         return r
 
+    def rehash(self):
+        """schedule the hash migration (the array was created with the hash function that is not the best one here)"""
+        r = self.a.run("rehash", hashflag=False)
+        self.any("rehash -> rc %d" % r.rc)
+        if r.rc == 0:
+            self.kinds.add("rehash")
+        return r
+
     def delete_file(self, spare_ok=False):
         rng = self.rng
         d = rng.randrange(self.conf.nd)
@@ -370,9 +378,11 @@ class ScrubRec:
             elif x < 0.86:
                 if self.delete_file() and rng.random() < 0.6:
                     self.sync_partial()
-            elif x < 0.93:
+            elif x < 0.90:
                 self.add_files()
                 self.sync()
+            elif x < 0.93:
+                self.rehash()
             else:
                 self.fix_e()
                 self.scrub("bad")
@@ -408,6 +418,23 @@ class ScrubRec:
         self.scrub("full")
         self.scrub("pct", 100, 0)
         self.scrub("bad")
+        self.sync(dt=DAY)
+        self.scrub("full")
+
+    def directed_rehash(self):
+        """scrubs while the hash migration is in progress: stripes with a file error keep their old hashes and their mark, the
+        others are converted; a second scrub finds nothing new"""
+        rng = self.rng
+        self.build()
+        self.add_files(3)
+        self.sync(dt=DAY)
+        self.rehash()
+        self.change_file()
+        if rng.random() < 0.5:
+            self.corrupt_data()
+        self.scrub("full")
+        self.scrub("full")
+        self.scrub("pct", 100, 0)
         self.sync(dt=DAY)
         self.scrub("full")
 
@@ -448,6 +475,8 @@ def _scenario(job):
             g.directed_unsynced()
         elif kind == "deleted-partial":
             g.directed_deleted_partial()
+        elif kind == "rehash":
+            g.directed_rehash()
         else:
             g.random_history(nsteps)
         return {"seed": seed, "nd": nd, "np": np_, "kind": kind, "nsteps": nsteps, "lines": g.lines, "vlen": g.rec.vlen,
@@ -585,7 +614,7 @@ def binding_part(v, tier, cov):
     nrand, nsteps, ndir = (48, 14, 12) if quick else (260, 22, 48)
     for i in range(ndir):
         nd, np_ = shapes[i % len(shapes)]
-        jobs.append((s0 + 500 + i, nd, np_, ("bad-cycle", "unsynced", "deleted-partial")[i % 3], 0, None))
+        jobs.append((s0 + 500 + i, nd, np_, ("bad-cycle", "unsynced", "deleted-partial", "rehash")[i % 4], 0, None))
     for i in range(nrand):
         nd, np_ = shapes[i % len(shapes)]
         jobs.append((s0 + 1000 + i, nd, np_, "random", nsteps, None))
